@@ -45,6 +45,7 @@
 import DDProofs.DynExample
 import DDProofs.DynSift
 import DDProofs.DynCube
+import DDProofs.DynImageOps
 import DDProps.Tables
 namespace DD
 
@@ -344,16 +345,124 @@ theorem C09_chained_calls_transparent (ext : Nat → Nat) (m : Mgr) (hD : DynInv
           ((if denN m.tbl g σ then denN m.tbl u σ else denN m.tbl v σ) && denN m.tbl w σ) :=
   ite_then_and_transparent ext m hD siftContract g u v w hg hu hv hw
 
+/-! ## `image` / `preimage` (the repair of finding F4c)
+
+The module-level functions turn `qvars` and `rename` into variable NAMES (`_image_args_by_name`)
+and run the bodies `_image_of` / `_preimage_of` under `_try_to_reorder`: a request raised by a
+nested `ite` / `find_or_add` propagates to that outermost decorator, sifting runs, and the body is
+retried with the names mapped to the new levels.  Both theorems are instances of
+`C09_decorator_transparent`. -/
+
+/-- C09 `image(trans, source, rename, qvars, bdd, forall)`, renaming and quantified variables given
+by declared NAMES, operands held by the user, under the code's own preconditions stated by name
+(`ImagePre`: pairwise distinct keys, no key is a value, every target quantified or outside the
+supports of both operands): whether or not a reordering request is served — at whichever
+`find_or_add` — the call returns normally; the result is the C13 image
+`rename(Q qvars. trans ∧ source)` of the operands AS THEY WERE, by name (`ImageDoc`); `DynInv`
+again (invariant, order maps, counts exact for the same ledger, flag cleared); reordering stays
+enabled; every held reference keeps its meaning by name.  No condition on the variable order
+(C13: `image` is correct for any order), so none on what sifting does. -/
+theorem C09_image_transparent (ext : Nat → Nat) (m : Mgr) (hD : DynInv ext m)
+    (trans source : Int) (ht : HeldX ext trans) (hs : HeldX ext source) (fa : Bool)
+    (l : List (String × String)) (qs : List String) (hpre : ImagePre trans source l qs m.tbl) :
+    ∃ r m', image trans source (l.map fun p => (Key.name p.1, Key.name p.2)) (qs.map Key.name)
+        fa m = (.ok r, m') ∧ DynPostG ext (ImageDoc fa qs l trans source) m r m' :=
+  image_transparent ext (siftContract ext) m hD trans source ht hs fa l qs hpre
+
+/-- the constant TRUE depends on no variable -/
+theorem not_dependsOnN_one (t : Tbl) (s : String) : ¬ dependsOnN t 1 s := by
+  rintro ⟨σ, hne⟩
+  exact hne (by unfold denN; rw [den_one, den_one])
+
+/-- non-vacuity (`C09_image_transparent`): on `exDyn` (order `a < b`, node 4 = `a ∧ b` held,
+reordering enabled, a request due at the next `find_or_add`): `image(a ∧ b, TRUE, {b: a}, {a})` -/
+example : ImagePre 4 1 [("b", "a")] ["a"] exDyn.tbl ∧ HeldX exExt 4 ∧ HeldX exExt 1 ∧
+    ∃ r m', image 4 1 [(.name "b", .name "a")] [.name "a"] false exDyn = (.ok r, m') ∧
+      m'.lastLen.isSome = true := by
+  have hpre : ImagePre 4 1 [("b", "a")] ["a"] exDyn.tbl := by
+    refine ⟨by simp, ?_, ?_, ?_, ?_⟩
+    · intro p hp
+      simp only [List.mem_cons, List.not_mem_nil, or_false] at hp
+      subst hp
+      exact ⟨by decide, by decide⟩
+    · intro s hs
+      simp only [List.mem_cons, List.not_mem_nil, or_false] at hs
+      subst hs
+      decide
+    · intro p p' hp hp'
+      simp only [List.mem_cons, List.not_mem_nil, or_false] at hp hp'
+      subst hp hp'
+      decide
+    · intro p hp
+      simp only [List.mem_cons, List.not_mem_nil, or_false] at hp
+      subst hp
+      exact Or.inl (by simp)
+  refine ⟨hpre, exExt_held4, Or.inl rfl, ?_⟩
+  obtain ⟨r, m', he, hp⟩ := C09_image_transparent exExt exDyn exDyn_dynInv 4 1 exExt_held4
+    (Or.inl rfl) false [("b", "a")] ["a"] hpre
+  exact ⟨r, m', he, by rw [hp.enabled]; rfl⟩
+
+/-- C09 `preimage(trans, target, rename, qvars, bdd, forall)`, arguments by declared NAMES,
+operands held, under the part of the preconditions of `C13_preimage_partial` that can be said by
+name (`PreimagePreN`: pairwise distinct keys, no key is a value, no two keys with the same value,
+the target independent of every value): whether or not a request is served the call returns
+normally with the frame of every decorated operation (`DynInv`, counts, reordering enabled, held
+references); the result is a reference of the manager and — PROVIDED every renamed variable is a
+neighbour of its partner in the order in which the manager is LEFT (`AdjN m'.tbl`: the order of
+the call when no request was served, the order sifting chose otherwise) — it denotes
+`Q qvars. trans ∧ rename(target)` of the operands as they were (`PreimageDoc`).  The proviso
+cannot be dropped: sifting moves single variables, and `_image` is only correct for `preimage`
+when the renaming is increasing on the support of the target (C13; findings F5/F5b are about the
+same recursion). -/
+theorem C09_preimage_transparent (ext : Nat → Nat) (m : Mgr) (hD : DynInv ext m)
+    (trans target : Int) (ht : HeldX ext trans) (hs : HeldX ext target) (fa : Bool)
+    (l : List (String × String)) (qs : List String) (hpre : PreimagePreN target l qs m.tbl) :
+    ∃ r m', preimage trans target (l.map fun p => (Key.name p.1, Key.name p.2)) (qs.map Key.name)
+        fa m = (.ok r, m') ∧ DynPostG ext (PreimageDoc fa qs l trans target) m r m' :=
+  preimage_transparent ext (siftContract ext) m hD trans target ht hs fa l qs hpre
+
+/-- non-vacuity (`C09_preimage_transparent`): on `exDyn`, `preimage(a ∧ b, TRUE, {a: b}, {b})`;
+with two variables the partners are neighbours in every order, so the documented meaning holds
+whatever sifting did -/
+example : PreimagePreN 1 [("a", "b")] ["b"] exDyn.tbl ∧ HeldX exExt 4 ∧ HeldX exExt 1 ∧
+    ∃ r m', preimage 4 1 [(.name "a", .name "b")] [.name "b"] false exDyn = (.ok r, m') ∧
+      m'.lastLen.isSome = true ∧ m'.tbl.Mem r := by
+  have hpre : PreimagePreN 1 [("a", "b")] ["b"] exDyn.tbl := by
+    refine ⟨by simp, ?_, ?_, ?_, ?_, ?_⟩
+    · intro p hp
+      simp only [List.mem_cons, List.not_mem_nil, or_false] at hp
+      subst hp
+      exact ⟨by decide, by decide⟩
+    · intro s hs
+      simp only [List.mem_cons, List.not_mem_nil, or_false] at hs
+      subst hs
+      decide
+    · intro p p' hp hp'
+      simp only [List.mem_cons, List.not_mem_nil, or_false] at hp hp'
+      subst hp hp'
+      decide
+    · intro p p' hp hp' _
+      simp only [List.mem_cons, List.not_mem_nil, or_false] at hp hp'
+      rw [hp, hp']
+    · intro p _
+      exact not_dependsOnN_one _ _
+  refine ⟨hpre, exExt_held4, Or.inl rfl, ?_⟩
+  obtain ⟨r, m', he, hp⟩ := C09_preimage_transparent exExt exDyn exDyn_dynInv 4 1 exExt_held4
+    (Or.inl rfl) false [("a", "b")] ["b"] hpre
+  exact ⟨r, m', he, by rw [hp.enabled]; rfl, hp.doc.1⟩
+
 /-! ## what is not covered
 
 Proved above for the decorated entry points of the model: `ite`, `apply` (binary propositional
 aliases, `ite`, quantifier aliases), `var`, `quantify`/`exist`/`forall`, `let` in its three forms
-(`cofactor`, `compose`, `rename`), `cube`, `copy_bdd` into the manager, and the chaining of calls
-with `incref` in between.  NOT covered by a theorem: `add_expr` as a whole (the parser's tree walk
-of C05 is a chain of the calls above with the intermediate results held by the autoref wrapper —
-`C09_chained_calls_transparent` is the two-call instance; the general statement is C08's history
-theorem composed with the theorems above), `load` (C12/C16), and the undecorated `image`,
-`preimage`, `autoref.BDD.find_or_add`, for which the property is FALSE of the code (known findings
-F4a/F4c).  Those are decided by correspondence at every trigger position. -/
+(`cofactor`, `compose`, `rename`), `cube`, `copy_bdd` into the manager, `image`, `preimage`
+(arguments by name; `preimage`'s meaning under the proviso that the partners are still
+neighbours), and the chaining of calls with `incref` in between.  NOT covered by a theorem:
+`add_expr` as a whole (the parser's tree walk of C05 is a chain of the calls above with the
+intermediate results held by the autoref wrapper — `C09_chained_calls_transparent` is the
+two-call instance; the general statement is C08's history theorem composed with the theorems
+above), `load` (C12/C16), `image` / `preimage` with arguments given by LEVEL (the wrapper turns
+them into the names at those levels first: same body; decided by correspondence at every trigger
+position). -/
 
 end DD
